@@ -161,6 +161,12 @@ def t_comparisons(body, res=None):
             if ty in FLOAT_TYS:
                 a, b = (res.operand(x) for x in t["args"])
                 out.append(dict(bb=i, where=body.where(i), lhs=a, rhs=b, rel=CMP_CALLS[t["f"]["path"]], ty=ty))
+        # (a') max / min / clamp on T select one operand by an implicit comparison: `v.max(c)` is a floor at c
+        if t["k"] == "call" and t.get("f") and t["f"]["path"].endswith(("Float::max", "Float::min", "::max", "::min")) and len(t["args"]) == 2:
+            ty = t["f"].get("self_ty", "").lstrip("&")
+            if ty in FLOAT_TYS and not t["f"]["path"].startswith(("std::cmp::Ord", "std::iter", "core::iter")):
+                a, b = (res.operand(x) for x in t["args"])
+                out.append(dict(bb=i, where=body.where(i), lhs=a, rhs=b, rel=t["f"]["path"].split("::")[-1], ty=ty))
         # (b) primitive float comparisons
         for j, s in enumerate(blk["stmts"]):
             if s["k"] == "assign" and s["r"]["k"] == "bin" and s["r"]["op"] in BINOPS:
